@@ -800,11 +800,21 @@ func (n NaturalLanguageValues) Equals(with NaturalLanguageValues) bool {
 	if n.Count() != with.Count() {
 		return false
 	}
-	for _, wv := range with {
-		for _, nv := range n {
-			if nv.Equals(wv) {
-				continue
+	contains := func(l NaturalLanguageValues, v LangRefValue) bool {
+		for _, lv := range l {
+			if lv.Equals(v) {
+				return true
 			}
+		}
+		return false
+	}
+	for _, wv := range with {
+		if !contains(n, wv) {
+			return false
+		}
+	}
+	for _, nv := range n {
+		if !contains(with, nv) {
 			return false
 		}
 	}
